@@ -12,7 +12,7 @@ COMMON_NOTE = ("trusted: Kani 0.68/CBMC 6.11, Verus/Z3; generator and parking_lo
 TECH = "contract-based deductive verification of the real code: Kani/CBMC function contracts and contract-form harnesses (pre/post over ghost state) on the real crates, Verus kernels/lemmas"
 
 CLAIMS = {
- "C01": "Join side of the property: trigger marks done before waking, wait registers then re-checks and returns only when the coroutine finished (all interleavings of one trigger with the waiter's steps), outcome mapping of join() for all slot combinations. Whole-runtime schedules, the single hand-off through the run queues and 'never on two threads' are NOT decided.",
+ "C01": "Join side: trigger marks done before waking, wait registers then re-checks and returns only when the coroutine finished (all interleavings of one trigger with the waiter's steps), outcome mapping of join() for all slot combinations. Scheduler hand-over (bounded, 3 workers): schedule / schedule_global put a coroutine on exactly one existing queue and wake the worker that owns it after the push; collect_global moves everything; run_queued_tasks returns only with its own queues empty and runs every coroutine it took exactly once. spawn_impl / run_coroutine life cycle, the queues' concurrent behaviour (C03/C04 sequential contracts are used) and 'never on two threads' are NOT decided.",
  "C02": "Park/unpark decomposed into per-function contracts on the real code: token semantics, park_timeout around the suspension, subscribe's register-then-recheck from every pre-state, each waker (unpark / timer / cancel) taking the coroutine exactly once and the second waker finding nothing, the lost-wake-up window through the real yield path, ThreadPark on the parking_lot shim. The wait_kernel delay-drop window and spurious wake-ups are not decided.",
  "C03": "Index arithmetic of both block queues as Kani function contracts (complete); white-box K3 obligations: consumer never reports empty / reads a reserved unwritten slot, value written before ready/tail-index publication, last-slot block installation (complete, loop-free); sequential FIFO behaviour across block boundaries, recycling and drop as bounded scenario stand-ins. Linearizability under real concurrent producers is NOT decided.",
  "C04": "pack/unpack and mark_slots_read contracts (complete); neither the owner's pop nor a steal takes a slot or changes the head word while another taker has the head marked (complete, one concrete heap shape); sequential exactly-once / order of owner pop and steal_into as bounded scenario stand-ins (copy_to_bulk replaced by its contract because SmallVec+packed pointers exceed 30 GB in CBMC). Concurrent stealers beyond the marked-head hand-over, over-claim/skip paths and ABA are NOT decided.",
@@ -25,11 +25,11 @@ CLAIMS = {
  "C11": "Condvar wait: enqueue-before-unlock-before-park, mutex re-acquired before every return, cancel disable/enable balanced, notification forwarded exactly once on time-out/cancel; notify_one/notify_all on queued waiters; Barrier leader arithmetic for every n, count and generation; WaitGroup drop/notify accounting (wait path bounded, thorough tier).",
  "C12": "guard accounting for every abstract state x clean/poisoned x non-blocking operation (found and fixed D2a), guard only if the caller's own CAS won under interference (found and fixed D2b), cancelled lock forwards the hand-off exactly once, cancelled read releases the reader mutex before the cancel panic. Fairness not decided.",
  "C13": "poison truth table (poisoned iff a panic started under the guard and it is not a cancellation unwind); delivery of exactly the panic payload / Cancel by join(); the panic branch of run_coroutine stores the payload before it triggers the join; a panic passing through a scope leaves the owner's cancel state as it found it (scoped join). Worker survival and stack reuse after a panic are NOT decided (generator shim).",
- "C14": "Join::wait returns only when the joined coroutine has finished, also when the waiter's park is ended by a cancellation (found and fixed D4); the scoped join (JoinState::join) joins its child exactly once with the owner's cancellation disabled and restored afterwards, for every combination of owner context / child result / owner unwinding; Scope::drop_all runs every deferred join exactly once in order and keeps the not-yet-run joins linked in the scope while one runs (a panicking join cannot lose the rest). The re-raise through resume_unwind and Cqueue::drop are not under contract.",
+ "C14": "Join::wait returns only when the joined coroutine has finished, also when the waiter's park is ended by a cancellation (found and fixed D4); the scoped join (JoinState::join) joins its child exactly once with the owner's cancellation disabled and restored afterwards, for every combination of owner context / child result / owner unwinding; Scope::drop_all runs every deferred join exactly once in order and keeps the not-yet-run joins linked in the scope while one runs; dropping a Cqueue cancels the running select coroutines and polls without time-out until poll reports Finished. The re-raise through resume_unwind, scope() itself and the macros are not under contract.",
  "C15": "NARROW claim: the passed-in result (time-out / cancel error) is consumed before park returns and before the cancel panic, so it cannot leak into the next coroutine on a pooled stack (C02.10), and the panic branch of run_coroutine hands the coroutine to the recycler exactly once after the join trigger (C13.1b). Privacy of LocalKey values (HashMap) and freshness of the CoroutineLocal attached by spawn are NOT decided: the life-cycle harnesses exceed CBMC's limits (DESIGN.md §9.2 item 7).",
- "C16": "poll's register-then-recheck against one select coroutine sending or ending at each of the poller's observation points (never parks unregistered or with an event queued; returns exactly the event sent, its bottom half started exactly once; Done events are not returned and trigger check_panic once; Finished only with the counter at zero); sender side pushes the event with the coroutine inside before waking. Multi-arm schedules, time-outs and Cqueue::drop are NOT decided.",
- "C17": "socket read and socket write (the template all I/O operations follow): the try-io / re-check / yield loop clears the readiness flag before every syscall, suspends only with the flag clear, returns the kernel result verbatim (bounded: 3 attempts per call); subscribe publishes the coroutine before re-reading the flag and resumes it itself when an edge raced ahead; the selector side hands the coroutine over exactly once. Accept / connect / datagram operations, the epoll loop, kernel semantics and the thread proxy are NOT under contract.",
- "C18": "time-out conversion read by every I/O time-out (AtomicDuration::get) never lost / never early; timer handle removed and handed to del_timer after a timed park; I/O timer armed before the coroutine is published and iff a time-out is set; cancel re-check in the socket subscribe (C17.2a-d); EventData::schedule / fast_schedule disarm the timer entry (null the back pointer) before removing it, so a lost removal race cannot time out a later operation. timeout_handler and the epoll loop are not under contract.",
+ "C16": "poll's register-then-recheck against one select coroutine sending or ending at each of the poller's observation points (never parks unregistered or with an event queued; returns exactly the event sent, its bottom half started exactly once; Done events are not returned and trigger check_panic once; Finished only with the counter at zero); sender side pushes the event with the coroutine inside before waking; Cqueue::drop cancels exactly the unfinished select coroutines, then drains with poll(None) until Finished. Multi-arm schedules, time-outs, check_panic's re-raise and the macros are NOT decided.",
+ "C17": "every socket operation struct under src/io/sys/unix/net (read, write, peek, vectored write, TCP/Unix accept, TCP/Unix connect, UDP/Unix datagram send and receive). Worker side (subscribe, complete per operation): coroutine published before the readiness flag is re-read, an edge that raced ahead resumes it exactly once, otherwise it stays published for the selector; the selector side hands it over exactly once. Caller side (done): flag cleared before every syscall, suspension only with the flag clear, no attempt after a final result, kernel result verbatim — read/write/peek for every script of <= 3 attempts (bounded), the others for concrete scripts (bounded; the success path of accept/connect is not under contract). Vectored-write done loop, the epoll loop, kernel semantics, byte-stream integrity above the operation structs and the thread-context branch are NOT under contract.",
+ "C18": "time-out conversion read by every I/O time-out (AtomicDuration::get) never lost / never early; timer handle removed and handed to del_timer after a timed park; for every socket operation: I/O timer armed before the coroutine is published and iff a time-out is set, cancel re-checked after registering (a cancel that raced ahead reschedules the coroutine once); EventData::schedule / fast_schedule disarm the timer entry (null the back pointer) before removing it, so a lost removal race cannot time out a later operation; timeout_handler resumes the blocked coroutine once with TimedOut unless disarmed. The epoll loop and the timer thread are not under contract.",
  "C19": "push post-state and consumer-spins-while-push-in-flight as complete white-box obligations; sequential exactly-once / order / remove semantics / reference counting as bounded scenario stand-ins with symbolic payloads under CBMC pointer checks. Concurrent push vs remove is NOT decided.",
 }
 NOT_YET = {
